@@ -111,7 +111,9 @@ def discharge(obligations, procs=None, z3_timeout_ms=None, cvc5_timeout_ms=None,
         has_q[i] = quant
         if special or not quant:
             full_text[i] = ob.smt2()
-            stage1.append((i, full_text[i], min(zt, 5000) if special else zt, not special))
+            # string obligations: z3's sequence solver rarely decides what it has not decided within seconds, cvc5 usually does
+            stringy = "str." in full_text[i] or "re." in full_text[i]
+            stage1.append((i, full_text[i], min(zt, 5000) if (special or stringy) else zt, not special))
         else:
             s = z3.Solver()
             for c in ob.pc:
